@@ -395,6 +395,24 @@ func (c *DutiesCache) ProposerDutiesCache(ctx context.Context, epoch eth2p0.Epoc
 		requestVidxs = slices.Clone(allActive)
 	}
 
+	if len(requestVidxs) == 0 {
+		// Neither the caller nor the active validators provide indices (yet): the beacon node answers an
+		// index-less request with every proposer of the epoch. That answer must not be cached, there are no
+		// requested indices to record it under and later requests would be amended on top of it.
+		eth2Resp, err := c.eth2Cl.ProposerDuties(ctx, &eth2api.ProposerDutiesOpts{Epoch: epoch})
+		if err != nil {
+			return ProposerDutyWithMeta{}, err
+		}
+
+		for _, duty := range eth2Resp.Data {
+			if duty == nil {
+				return ProposerDutyWithMeta{}, errors.New("proposer duty is nil")
+			}
+		}
+
+		return ProposerDutyWithMeta{Duties: eth2Resp.Data, Metadata: eth2Resp.Metadata}, nil
+	}
+
 	dutiesForEpoch, ok := c.fetchProposerDuties(epoch)
 	dutiesResult := make([]*eth2v1.ProposerDuty, 0, len(vidxs))
 
